@@ -786,6 +786,77 @@ Section ExecArgs.
       pose proof (wt_pos (macros st) t). lia.
   Qed.
 
+  (* nothing of the parser state but the list of unknowns changes: no
+     diagnostic is recorded, no declaration, no language, no counter *)
+  Definition frame (st st' : pstate) : Prop := st' = upd_unknowns st (unknowns st').
+  Lemma frame_refl st : frame st st.
+  Proof. unfold frame. destruct st; reflexivity. Qed.
+  Lemma frame_trans a b c : frame a b -> frame b c -> frame a c.
+  Proof. unfold frame. intros H1 H2. rewrite H2. rewrite H1. reflexivity. Qed.
+  Lemma frame_macros a b : frame a b -> macros b = macros a.
+  Proof. unfold frame. intros H. rewrite H. reflexivity. Qed.
+
+  Lemma step_macro_frame rec fuel st t b env_stop rout :
+    tk t = KMacro -> txt_is t (s2l "\def") = false -> assoc (txt t) (macros st) = None ->
+    exists st',
+      step_seq T rd rec fuel st (t :: b) env_stop rout =
+        rec (TSeq (ActionT (pos t) :: skip_ctl b) env_stop rout) st' /\ frame st st'.
+  Proof.
+    intros Hk Hd Hm. unfold step_seq. rewrite Hk, Hd. unfold expand_macro. rewrite Hm.
+    cbn [orb]. destruct (mem_str (txt t) (unknowns st)); cbn [rbind app].
+    - exists st. split; [reflexivity | apply frame_refl].
+    - eexists. split; [reflexivity|]. unfold frame. reflexivity.
+  Qed.
+
+  Theorem exec_args_frame : forall fuel toks rout st st' a,
+    bcl (macros st) toks ->
+    exec T rd fuel (TSeq toks None rout) st = Ok (st', a) -> frame st st'.
+  Proof.
+    induction fuel as [|k IH]; intros toks rout st st' a Hc H; [discriminate|].
+    cbn [exec step] in H. inversion Hc as [E0|t b Ht Hb E0|m o a0 c l Hm Ho Hcl Hbal Ha Hl E0|m body l Hm Hl E0|t l Ht Hn Hl E0]; subst.
+    - cbn [step_seq] in H.
+      destruct (remove_pure_action_lines isp (rev rout)) as [o| | |]; try discriminate.
+      cbn [rbind] in H. inversion H; subst. apply frame_refl.
+    - inversion Ht as [? He|? Hk Hd Hm|? Hk Hi|? Hk Htx|? Hk Hbr|? v Hk Hi Hv|? Hpin Hg|? Hk Hnl]; subst.
+      + rewrite (step_seq_etok T rd Htab) in H by exact He. eapply IH; eassumption.
+      + destruct (step_macro_frame (exec T rd k) k st t b None rout Hk Hd Hm) as (st1 & Es & Fr).
+        rewrite Es in H. destruct (skip_space_bcl _ _ Hb) as (pre & _ & _ & _ & Hrest).
+        apply (frame_trans _ _ _ Fr). eapply IH; [|exact H].
+        rewrite (frame_macros _ _ Fr).
+        constructor; [apply u_action; [left|]; reflexivity | exact Hrest].
+      + rewrite (step_comment T rd) in H by assumption. eapply IH; eassumption.
+      + rewrite (step_action T rd Htab) in H by assumption. eapply IH; eassumption.
+      + rewrite (step_brace T rd) in H by assumption. eapply IH; eassumption.
+      + rewrite (step_special T rd _ _ _ _ _ _ _ v Hk Hi Hv) in H. eapply IH; eassumption.
+      + rewrite (step_seq_gtok T rd Htab) in H by exact Hg. eapply IH; eassumption.
+      + rewrite (step_verb T rd) in H by exact Hk. eapply IH; eassumption.
+    - destruct (step_pass (exec T rd k) k st m o a0 c l None rout Hm Ho Hcl Hbal)
+        as (a' & x & y & Ea' & Hx & Hy & Es).
+      rewrite Es in H.
+      assert (Ha' : bcl (macros st) a').
+      { rewrite Ea'. destruct a0 as [|z a1]; [|exact Ha].
+        constructor; [apply u_action; [right|]; reflexivity | constructor]. }
+      eapply IH; [|exact H].
+      constructor; [apply u_action; [left|]; reflexivity|].
+      constructor; [apply u_action; [left|]; reflexivity|].
+      apply bcl_app; [exact Ha'|].
+      constructor; [apply u_action; [left|]; reflexivity | exact Hl].
+    - rewrite (step_const (exec T rd k) k st m body l None rout Hm) in H.
+      destruct (skip_space_bcl _ _ Hl) as (pre & _ & _ & _ & Hrest).
+      destruct Hm as (Hk & Hd & mac & Hma & Hargs & Hrepl & Hext & Hbody).
+      eapply IH; [|exact H].
+      constructor; [apply u_action; [left|]; reflexivity|]. apply bcl_app; [|exact Hrest].
+      assert (Hg : Forall (fun t => pfix t = true /\ gtok T t)
+                          (map (fun b => set_pos_fix b (pos m)) body)).
+      { apply Forall_forall. intros t Ht. apply in_map_iff in Ht.
+        destruct Ht as (b0 & Eb0 & Hin). subst t. rewrite Forall_forall in Hbody.
+        split; [reflexivity | apply gtok_pinned; apply Hbody; exact Hin]. }
+      clear - Hg. induction Hg as [|t g' [Hp Ht] Hg' IHg]; [constructor|].
+      apply b_one; [apply u_gen; assumption | exact IHg].
+    - rewrite (step_newline (exec T rd k) k st t l None rout Ht Hn) in H.
+      eapply IH; eassumption.
+  Qed.
+
   (* the words stay -- also those inside arguments --, the markup vanishes,
      special sequences show as their tabulated text, the undeclared names are
      recorded once each in order of first use *)
